@@ -170,6 +170,10 @@ func (r *Run) writersUnderContract(name string, v *types.Var) {
 			continue
 		}
 		if n.fn == nil {
+			if r.initOK {
+				detail = append(detail, "package initialiser (the initial value is checked separately)")
+				continue
+			}
 			ok = false
 			detail = append(detail, "a package initialiser literal writes it")
 			continue
@@ -329,5 +333,67 @@ func c17Extra(r *Run) error {
 	r.fieldUseCensus("C17/bare-handle-census", r.structField(db, "Database", "Handle"), benign,
 		"the connection handle Database.Handle is used to run statements, is replaced or escapes only in the Database wrappers",
 		db+".Open", "(*"+db+".Database).Exec", "(*"+db+".Database).Query", "(*"+db+".Database).Begin")
+	return nil
+}
+
+// mapWritersUnderContract: every function that inserts into or deletes from a map of this type is verified for this property.
+func (r *Run) mapWritersUnderContract(name string, mt *types.Map) {
+	if mt == nil {
+		r.table(name, false, "map type not found", "")
+		return
+	}
+	id := mapTypeID(mt)
+	ok := true
+	n0 := 0
+	var detail []string
+	for _, n := range r.Eng.frame.allNodes() {
+		if !n.writes.maps[id] {
+			continue
+		}
+		n0++
+		if n.fn == nil {
+			ok = false
+			detail = append(detail, "a package initialiser literal writes it")
+			continue
+		}
+		c := r.Prog.ContractFor(n.fn.FullName(), n.fn.Pkg().Path())
+		if c == nil || c.Trusted || !propListed(c.Opts["props"], r.Prop) || c.Opts["noinv"] == "true" {
+			ok = false
+			detail = append(detail, shortFuncName(n.fn.FullName())+" writes it without a contract for "+r.Prop)
+		} else {
+			detail = append(detail, shortFuncName(n.fn.FullName())+" (under contract)")
+		}
+	}
+	sort.Strings(detail)
+	r.table(name, ok && n0 > 0, fmt.Sprintf("every function that inserts into or deletes from a %s is under contract for %s", types.TypeString(mt, nil), r.Prop), strings.Join(detail, "; "))
+}
+
+func (r *Run) globalVar(pkgPath, name string) *types.Var {
+	pk := r.Prog.Pkgs[pkgPath]
+	if pk == nil || pk.Types == nil {
+		return nil
+	}
+	v, _ := pk.Types.Scope().Lookup(name).(*types.Var)
+	return v
+}
+
+// C24: the limiter's map and records are written only by the functions whose contracts describe the transitions.
+func c24Extra(r *Run) error {
+	rt := modInternal + "router"
+	v := r.globalVar(rt, "loginAttempts")
+	r.initOK = true
+	r.writersUnderContract("C24/login-attempts-var-writers", v)
+	r.initOK = false
+	if v != nil {
+		mt, _ := v.Type().Underlying().(*types.Map)
+		r.mapWritersUnderContract("C24/login-attempts-map-writers", mt)
+	}
+	for _, f := range []string{"failures", "lockedUntil"} {
+		r.writersUnderContract("C24/record-"+f+"-writers", r.structField(rt, "loginRecord", f))
+	}
+	// every password check is made by a login path whose contract ties it to the limiter
+	as := modInternal + "server/oauth/authserver"
+	r.census("C24/password-check-census", modInternal+"server/auth.ValidatePassword", 0, "", "(*"+rt+".Session).Authenticate", as+".validatePassword")
+	r.census("C24/oauth-password-check-census", as+".validatePassword", 0, "", as+".AuthorizePostHandler")
 	return nil
 }
